@@ -333,7 +333,7 @@ func doShrink(path, out string) {
 		fmt.Fprintln(os.Stderr, "simworker: unknown scenario", r.Scenario)
 		os.Exit(2)
 	}
-	budget := 600
+	budget := 1200
 	runs := 0
 	best := cloneTape(r.Tape)
 	orig := [3]int{len(best.Plan), len(best.Fault), len(best.Sched)}
@@ -361,6 +361,20 @@ func doShrink(path, out string) {
 	for pass := 0; pass < 4 && changed && runs < budget; pass++ {
 		changed = false
 		for _, get := range streams {
+			// delete chunks, large to small (later choices shift: fewer actors/operations/steps)
+			for size := len(*get(best)) / 2; size >= 1; size /= 2 {
+				for startIdx := 0; startIdx+size <= len(*get(best)) && runs < budget; {
+					cand := cloneTape(best)
+					cs := *get(cand)
+					*get(cand) = append(append([]uint32(nil), cs[:startIdx]...), cs[startIdx+size:]...)
+					if o, ok := test(cand); ok && tapeLen(o.Tape) < tapeLen(best) {
+						best = cloneTape(o.Tape)
+						changed = true
+					} else {
+						startIdx += size
+					}
+				}
+			}
 			// zero chunks, large to small
 			n := len(*get(best))
 			for size := n; size >= 1; size /= 2 {
@@ -423,6 +437,8 @@ func doShrink(path, out string) {
 	nr.OrigLen = orig
 	writeJSON(out, nr)
 }
+
+func tapeLen(t *simrt.Tape) int { return len(t.Plan) + len(t.Fault) + len(t.Sched) }
 
 func cloneTape(t *simrt.Tape) *simrt.Tape {
 	return &simrt.Tape{Plan: append([]uint32(nil), t.Plan...), Fault: append([]uint32(nil), t.Fault...), Sched: append([]uint32(nil), t.Sched...)}
